@@ -59,7 +59,7 @@ pub fn evaluate(case: &Case, out: &ChildOut) -> Verdict {
             "hang",
             format!("emitter-blocked-across-shutdown/drain-{}", case.drain),
             format!(
-                "an emitting thread was still blocked 3 s after shutdown returned and the streams were drained and dropped ({shape}); blocked in the emission of {:?}",
+                "an emitting thread was still blocked 6 s after shutdown returned and the streams were drained and dropped ({shape}); blocked in the emission of {:?}",
                 out.stuck_at.iter().map(|s| s.and_then(|i| case.events.get(i).cloned())).collect::<Vec<_>>()
             ),
             None,
